@@ -137,6 +137,62 @@ def run(ck, prog, ctx):
     ck.rule("GUARD", "unsigned subtraction guarded (DESIGN 3.5)")
     ck.rule("KIND", "single-kind constructors (DESIGN 3.3 K1)")
     ck.rule("TABLE", "internals of the hypergeometric distribution by field")
+    # ---- PRECHECK: a size test that an enrichment function makes before it builds the model may not refuse what the model accepts.
+    # `Hypergeometric::new(population, successes, draws)` is the one place that says which sizes are invalid (draws > population); a check in
+    # front of the loop that fails for draws == population as well turns the legitimate `sample the whole background` into an error / panic.
+    ck.rule("PRECHECK", "a comparison of the two set sizes that guards an error exit of an enrichment function fails only for outcomes for which Hypergeometric::new fails on the same pair of arguments")
+    from engines import compare_switches as _cs6, relation_cases as _rc6
+    from props.layout import fails_from as _ff6
+    pv6 = Prov(prog, inline=False)
+    model = prog.one(r"^stats::hypergeom::statrs::Hypergeometric::new$")
+    if model is not None:
+        model_fail = {}  # (param a, param b) -> outcomes of a against b that fail
+        for c_ in _cs6(model, pv6):
+            pa, pb = params_of(pv6.of_operand(model, c_["l"]), model.id), params_of(pv6.of_operand(model, c_["r"]), model.id)
+            if len(pa) == 1 and len(pb) == 1 and pa != pb:
+                cases = _rc6(c_)
+                fail = {k_ for k_, tg_ in cases.items() if tg_ is not None and _ff6(model, tg_)}
+                a_, b_ = next(iter(pa)), next(iter(pb))
+                model_fail[(a_, b_)] = model_fail.get((a_, b_), set()) | fail
+                model_fail[(b_, a_)] = model_fail.get((b_, a_), set()) | {{"lt": "gt", "gt": "lt", "eq": "eq"}[x_] for x_ in fail}
+        n_pre = 0
+        for eb in sorted(prog.production(), key=lambda x: x.id):
+            if eb.kind not in ("Fn", "AssocFn") or not (eb.file or "").startswith("src/stats/hypergeom/") or eb.id == model.id:
+                continue
+            news = [(bi_, t_) for bi_, t_ in eb.calls() if t_.callee.res == model.id and len(t_.args) == 3]
+            if not news:
+                continue
+
+            def src6(op_):
+                """(parameter, method) when the operand is `param.len()` (or a copy of it)"""
+                at_ = pv6.of_operand(eb, op_)
+                ps_ = {x_[2] for x_ in at_ if x_[0] == "param" and x_[1] == eb.id and x_[3] == ()}
+                ms_ = {x_[1].rsplit("::", 1)[-1] for x_ in at_ if x_[0] == "call"}
+                return (next(iter(ps_)), next(iter(ms_))) if len(ps_) == 1 and len(ms_) == 1 and all(x_[0] in ("param", "call") for x_ in at_) else None
+            roles = {}
+            for bi_, t_ in news:
+                for i_, a_ in enumerate(t_.args, 1):
+                    s_ = src6(a_)
+                    if s_ is not None:
+                        roles[s_] = i_
+            for c_ in _cs6(eb, pv6):
+                sl, sr = src6(c_["l"]), src6(c_["r"])
+                if sl is None or sr is None or sl not in roles or sr not in roles or roles[sl] == roles[sr]:
+                    continue
+                cases = _rc6(c_)
+                fail = {k_ for k_, tg_ in cases.items() if tg_ is not None and _ff6(eb, tg_)}
+                if not fail:
+                    continue
+                n_pre += 1
+                allowed = model_fail.get((roles[sl], roles[sr]))
+                names = (model.arg_names.get(roles[sl], "?"), model.arg_names.get(roles[sr], "?"))
+                if allowed is None:
+                    ck.undecided("PRECHECK", "%s/%s-vs-%s" % (eb.short, names[0], names[1]), "%s fails on a comparison of %s with %s, a pair the model does not compare" % (eb.short, names[0], names[1]), where=eb.where(c_["line"]))
+                else:
+                    extra = sorted(fail - allowed)
+                    ck.ob("PRECHECK", "%s/%s-vs-%s" % (eb.short, names[0], names[1]), not extra, "%s fails when %s is %s %s; Hypergeometric::new fails for %s%s" % (
+                        eb.short, names[0], "/".join(sorted(fail)), names[1], "/".join(sorted(allowed)) or "no outcome", "" if not extra else ": the case `%s` (%s == %s: e.g. the sample is the whole background) is refused here although the model accepts it" % (extra[0], names[0], names[1]) if extra[0] == "eq" else ": `%s` is refused here only" % extra[0]), where=eb.where(c_["line"]))
+
     ai = absint.Interp(prog)
     n_inner = 0
     for fid in INNER:
